@@ -93,15 +93,17 @@ def unpack (O : Oracle) (cx : Cx) (fx : Fx) : Ty → V → R V
       | _ => unpack O cx fx t v
   | .union ts, v =>
       -- exact-type tests and ordered tries, in declaration order
+      if cx.fixK2 && ts.any (fun t => t.isScalar && t.scalarCls == classOf v) then .ok v else
       match unionWalk O cx fx ts v with
       | some r => .ok r
       | none =>
         -- scalar coercions of the type-match members, in declaration order
-        match firstOk (fun t => unpackScalar O t v) (ts.filter Ty.isScalar) with
+        match firstOk (fun t => unpackScalar O t v)
+            (ts.filter (fun t => t.isScalar && !(cx.fixK1 && t.scalarCls == .none))) with
         | some r => .ok r
         | none => .error (noMatch cx fx v)
   | .coll o t, v => do
-      let xs ← pyIter v
+      let xs ← pyIterO O v
       let r ← xs.mapM (unpack O cx fx t)
       match o with
       | .set | .frozenset =>
@@ -113,11 +115,11 @@ def unpack (O : Oracle) (cx : Cx) (fx : Fx) : Ty → V → R V
       let r ← kvs.mapM (kvMH (unpack O cx fx k) (if o == .counter then O.run .int else unpack O cx fx t))
       pure (.map o r)
   | .chain k t, v => do
-      let ms ← pyIter v
+      let ms ← pyIterO O v
       let r ← ms.mapM (itemsM (kvMH (unpack O cx fx k) (unpack O cx fx t)))
       pure (.coll .chainmap r)
   | .tvar t, v => do
-      let xs ← pyIter v
+      let xs ← pyIterO O v
       let r ← xs.mapM (unpack O cx fx t)
       pure (.coll .tuple r)
   | .tfix ts, v => do
